@@ -58,7 +58,7 @@ def required_cells(tier):
             cells.append('corrupt:%s:%s' % (f, c))
     cells += ['corrupt:C:letter', 'corrupt:A:letter']
     cells += ['depth:1', 'depth:2', 'depth:3', 'nothing-ran:comment-only', 'nothing-ran:skip-block',
-              'nothing-ran:google-no-prompts', 'no-want-at-all', 'blankline-want:A', 'blankline-want:B', 'ok:I', 'stale-after-ignored-want']
+              'nothing-ran:google-no-prompts', 'nothing-ran:bare-prompt', 'no-want-at-all', 'blankline-want:A', 'blankline-want:B', 'ok:I', 'stale-after-ignored-want']
     cells += ['escape:' + k for k, _ in ESCAPES]
     return cells
 
@@ -407,6 +407,12 @@ NOTHING = [
     ('skip-block', 'freeform', '>>> # xdoctest: +SKIP\n>>> emit(1)\ne1\n\ntext\n\n>>> emit(2)\nBOGUS'),
     ('skip-block', 'google', 'Summary.\n\nExample:\n    >>> # doctest: +SKIP\n    >>> emit(1)\n    BOGUS'),
     ('skip-block', 'freeform', '>>> # xdoctest: +REQUIRES(module:xv_no_such_module)\n>>> emit(1)\nBOGUS'),
+    # empty prompt lines are not code either
+    ('bare-prompt', 'freeform', '>>> # a remark\n>>>\n>>> emit(1)  # xdoctest: +SKIP\nBOGUS'),
+    ('bare-prompt', 'freeform', '>>>\n>>> emit(1)  # xdoctest: +SKIP\n>>> emit(2)  # xdoctest: +SKIP'),
+    ('bare-prompt', 'freeform', '>>> # xdoctest: +SKIP\n>>>\n>>> emit(1)\nBOGUS'),
+    ('bare-prompt', 'google', 'Summary.\n\nExample:\n    >>> # remark\n    >>>\n    >>> # xdoctest: +REQUIRES(module:xv_no_such_module)\n    >>> emit(1)\n'),
+    ('bare-prompt', 'freeform', '>>> # remark\n>>>\n...\n>>> emit(1)  # xdoctest: +SKIP'),
     ('google-no-prompts', 'google', 'Summary.\n\nExample:\n    only prose in this block\n'),
 ]
 
